@@ -65,3 +65,172 @@ v("rec-back", ["C05"], "parse/earley.py", "chart = self._chart[x[:-1]]  # cached
   "chart = self.chart(x[:-1])", "REC-CACHEFILL")
 v("eff-benign-rename", ["C05"], "parse/earley.py", "        next_col = Column(prev_cols[-1].k + 1)\n        next_col_c_chart = next_col.c_chart",
   "        next_col = Column(prev_col.k + 1)\n        next_col_c_chart = next_col.c_chart", None)
+
+# ------------------------------------------------------------------ interfaces / pipelines (C01, C04)
+v("iface-missing-method", ["C01", "C04"], "parse/cky.py", "    def clear_cache(self):\n        self._chart.clear()\n",
+  "    def reset_cache(self):\n        self._chart.clear()\n", "IFACE-UNION", expect_file="*")
+v("iface-arity", ["C01", "C04"], "parse/cky.py", "def next_token_weights(self, chart, prefix=None):", "def next_token_weights(self, chart, prefix):",
+  "IFACE-UNION", expect_file="cfglm.py")
+v("iface-cky-wrapper", ["C01", "C04"], "cfglm.py", "self.model = CKYLM(cfg).model", "self.model = CKYLM(cfg)", "IFACE-UNION")
+v("masktrim-dropped", ["C01"], "cfglm.py", "p = self.model.next_token_weights(self.model.chart(context)).trim()",
+  "p = self.model.next_token_weights(self.model.chart(context))", "PIPE-MASKTRIM")
+v("masktrim-truthy", ["C01"], "cfglm.py",
+  "        p = self.model.next_token_weights(self.model.chart(context)).trim()\n        return Float.chart({w: 1 for w in p})",
+  "        p = self.model.next_token_weights(self.model.chart(context))\n        return Float.chart({w: 1 for w, v in p.items() if v})", "GEN-TRUTH")
+v("masktrim-benign-explicit", ["C01"], "cfglm.py",
+  "        p = self.model.next_token_weights(self.model.chart(context)).trim()\n        return Float.chart({w: 1 for w in p})",
+  "        p = self.model.next_token_weights(self.model.chart(context))\n        return Float.chart({w: 1 for w, v in p.items() if v != Boolean.zero})", None)
+v("pipelm-no-normalize", ["C04"], "parse/earley.py", "return self.model.next_token_weights(self.model.chart(context)).normalize()",
+  "return self.model.next_token_weights(self.model.chart(context))", "PIPE-LM")
+v("pipelm-no-prefix-grammar", ["C01", "C04"], "parse/earley.py", "self.model = Earley(cfg.prefix_grammar)", "self.model = Earley(cfg)", "PIPE-LM")
+v("pipelm-no-eos", ["C01", "C04"], "cfglm.py", "        if EOS not in cfg.V:\n            cfg = add_EOS(cfg, eos=EOS)\n", "", "PIPE-LM")
+v("pipelm-benign-tmp", ["C04"], "parse/earley.py", "        return self.model.next_token_weights(self.model.chart(context)).normalize()",
+  "        cols = self.model.chart(context)\n        p = self.model.next_token_weights(cols)\n        return p.normalize()", None)
+v("chainalign-off-by-one", ["C04"], "lm.py", "p = self.p_next(context[:i])", "p = self.p_next(context[: i + 1])", "PIPE-CHAINALIGN")
+v("chainalign-seq", ["C04"], "lm.py", "P *= p[extension[i]]", "P *= p[extension[i - 1]]", "PIPE-CHAINALIGN")
+v("tsrescale-missing-else", ["C04"], "parse/earley_rescaled.py",
+  "        if den == 0 or num == 0:\n            next_col.rescale = 1\n        else:\n            next_col.rescale = num / den * prev_col.rescale",
+  "        if not (den == 0 or num == 0):\n            next_col.rescale = num / den * prev_col.rescale", "TS-RESCALE")
+v("guarddiv-rescale", ["C04"], "parse/earley_rescaled.py",
+  "        if den == 0 or num == 0:\n            next_col.rescale = 1\n        else:\n            next_col.rescale = num / den * prev_col.rescale",
+  "        if num == 0:\n            next_col.rescale = 1\n        else:\n            next_col.rescale = num / den * prev_col.rescale", "GUARD-DIV")
+
+# ------------------------------------------------------------------ genericity (C02, C06, C08-C12, C15)
+v("gen-literal-total", ["C11", "C12", "C10"], "wfsa/base.py", "        total = self.R.zero\n", "        total = 0\n", "GEN-LITERAL")
+v("gen-literal-update", ["C08", "C02", "C06"], "cfg.py", "            update(a, self.R.one)", "            update(a, 1)", "GEN-LITERAL")
+v("gen-literal-cmp", ["C02", "C06", "C09"], "cfg.py", "        if w == self.R.zero:\n            return  # skip rules with weight zero",
+  "        if w == 0:\n            return  # skip rules with weight zero", "GEN-LITERAL")
+v("gen-literal-one", ["C15", "C08", "C11"], "linear.py", "            b[i] = self.WeightType.one", "            b[i] = 1", "GEN-LITERAL")
+v("gen-literal-filter", ["C10", "C09"], "fst.py", "    F.add_arc(0, (ε_2, ε_1), 0, R.one)", "    F.add_arc(0, (ε_2, ε_1), 0, 1.0)", "GEN-LITERAL")
+v("gen-sum-back", ["C02"], "parse/earley.py", "                (r.w for r in self.cfg.rhs[self.cfg.S] if r.body == ()),\n                start=self.cfg.R.zero,\n",
+  "                (r.w for r in self.cfg.rhs[self.cfg.S] if r.body == ()),\n", "GEN-SUM")
+v("gen-sum-det", ["C13", "C11", "C12", "C10"], "wfsa/base.py", "W = sum(R.values(), start=self.R.zero)", "W = sum(R.values())", "GEN-SUM")
+v("gen-fieldop", ["C02", "C06", "C08"], "cfg.py", "                        c[i, X, k] += r.w * c[i, Y, j] * c[j, Z, k]",
+  "                        c[i, X, k] += r.w * c[i, Y, j] * c[j, Z, k] / self.R.one", "GEN-FIELDOP")
+v("gen-truth-cky", ["C02", "C01", "C04"], "parse/cky.py", "                        z = new_j[Z]\n                        x = r.w * y * z",
+  "                        z = new_j[Z]\n                        if not z:\n                            continue\n                        x = r.w * y * z", "GEN-TRUTH")
+v("gen-truth-eps", ["C10", "C12"], "fst.py", "                if idx == 0 and ab[1] == ε:", "                if idx == 0 and not ab[1]:", "GEN-TRUTH")
+v("gen-benign-zero-plus", ["C11", "C12", "C10"], "wfsa/base.py", "        total = self.R.zero\n", "        total = self.R.zero + self.R.zero\n", None)
+v("gen-benign-counter", ["C08", "C02", "C06"], "cfg.py", "        iteration = 0\n        while b >= 0:", "        iteration = 0\n        n_updates = 0\n        while b >= 0:", None)
+v("symclass-in-N", ["C08", "C06", "C07", "C02"], "cfg.py", "                if self.is_nonterminal(X):\n                    update *= V[X]",
+  "                if X in self.N:\n                    update *= V[X]", "SYMCLASS")
+v("multiset-fromkeys", ["C03", "C09", "C06", "C02"], "cfg.py", "        for r in itertools.chain(self, special_rules):\n            if len(r.body) == 0:\n                for s in fst.states:",
+  "        for r in dict.fromkeys(itertools.chain(self, special_rules)):\n            if len(r.body) == 0:\n                for s in fst.states:", "MULTISET")
+v("multiset-unfold-eq", ["C06", "C02"], "cfg.py", "        for j, r in enumerate(self):\n            if j != i:", "        for j, r in enumerate(self):\n            if r != s:", "MULTISET")
+v("setnotadd-compose", ["C10", "C11", "C12"], "fst.py", "                    C.add_arc(PQ, (a, c), PʼQʼ, w1 * w2)", "                    C.set_arc(PQ, (a, c), PʼQʼ, w1 * w2)", "SET-NOT-ADD")
+
+# ------------------------------------------------------------------ guards (C07, C06, C11, C13, C14, C18, C20)
+v("shape-binarize-3", ["C07"], "cfg.py", "            if len(p.body) <= 2:\n                new.add(p.w, p.head, *p.body)", "            if len(p.body) <= 3:\n                new.add(p.w, p.head, *p.body)", "GUARD-SHAPE")
+v("shape-nullary-guard", ["C07"], "cfg.py", "                if len(new_body) > 0:\n                    rcfg.add(v, f(r.head), *new_body)", "                rcfg.add(v, f(r.head), *new_body)", "GUARD-SHAPE")
+v("shape-unaryremove-continue", ["C07"], "cfg.py", "            if len(r.body) == 1 and self.is_nonterminal(r.body[0]):\n                continue\n            for Y in self.N:",
+  "            for Y in self.N:", "GUARD-SHAPE")
+v("shape-trim-body", ["C07", "C06"], "cfg.py", "if p.head in symbols and p.w != self.R.zero and set(p.body) <= symbols:", "if p.head in symbols and p.w != self.R.zero:", "GUARD-SHAPE")
+v("shape-epsremove", ["C11"], "wfsa/base.py", "            if a == EPSILON:\n                continue\n            for k in S.outgoing[j]:", "            for k in S.outgoing[j]:", "GUARD-SHAPE")
+v("shape-benign-arms", ["C07"], "cfg.py", "            if len(p.body) <= 2:\n                new.add(p.w, p.head, *p.body)\n            else:\n                stack.extend(self._fold(p, [(0, 1)]))",
+  "            if len(p.body) > 2:\n                stack.extend(self._fold(p, [(0, 1)]))\n            else:\n                new.add(p.w, p.head, *p.body)", None)
+v("shape-benign-not-if", ["C07"], "cfg.py", "            if len(r.body) == 1 and self.is_nonterminal(r.body[0]):\n                continue\n            for Y in self.N:\n                new.add(W[Y, r.head] * r.w, Y, *r.body)",
+  "            if not (len(r.body) == 1 and self.is_nonterminal(r.body[0])):\n                for Y in self.N:\n                    new.add(W[Y, r.head] * r.w, Y, *r.body)", None)
+v("validator-start-on-rhs", ["C07"], "cfg.py", "                self.is_nonterminal(y) and y != self.S for y in r.body", "                self.is_nonterminal(y) for y in r.body", "GUARD-VALIDATOR")
+v("cnfassert-dropped", ["C07"], "cfg.py", "        assert new.in_cnf(), \"\\n\".join(\n            str(r) for r in new._find_invalid_cnf_rule()\n        )  # pragma: no cover\n", "", "GUARD-CNFASSERT")
+v("trim-per-symbol-back", ["C07"], "cfg.py", "                if not all((b in C) for b in e.body):\n                    continue\n", "", "GUARD-TRIMUSABLE")
+v("trim-seed-back", ["C07"], "cfg.py", "        T = {self.S} if self.S in C else set()", "        T = {self.S}", "GUARD-TRIMUSABLE")
+v("trim-benign-set-le", ["C07"], "cfg.py", "                if not all((b in C) for b in e.body):\n                    continue\n", "                if not set(e.body) <= C:\n                    continue\n", None)
+v("ucycle-acyclic-test", ["C07", "C06"], "cfg.py", "                if G[X, X] == self.R.zero:\n                    acyclic.add(X)", "                if bucket.get(X) is not None:\n                    acyclic.add(X)", "GUARD-UCYCLE")
+v("ucycle-copy-unguarded", ["C07", "C06"], "cfg.py", "            if len(r.body) == 1 and bucket.get(r.body[0]) == bucket[r.head]:\n                continue\n            new.add(r.w, bot(r.head), *r.body)",
+  "            new.add(r.w, bot(r.head), *r.body)", "GUARD-UCYCLE")
+v("cnforder-swapped", ["C07", "C06"], "cfg.py", "            .nullaryremove(binarize=True)\n            .trim()\n            .unaryremove()\n", "            .unaryremove()\n            .trim()\n            .nullaryremove(binarize=True)\n", "PIPE-CNFORDER")
+v("div-locnorm-guard", ["C20"], "cfglm.py", "        if Z[r.head] == 0:\n            continue\n", "", "GUARD-DIV")
+v("div-push-guard", ["C13"], "wfsa/base.py", "            if V[i] == self.R.zero:\n                continue\n            new.add_I(i, self.start[i] * V[i])", "            new.add_I(i, self.start[i] * V[i])", "GUARD-DIV")
+v("div-powerarcs-back", ["C13"], "wfsa/base.py", "                if W == self.R.zero:\n                    continue  # no (non-zero) mass on this symbol\n\n", "", "GUARD-DIV")
+v("div-basis-back", ["C14"], "wfsa/field_wfsa.py", "        if approx_equal(self.start, 0):\n            return np.zeros((0, self.dim))  # empty language: no forward space\n", "", "GUARD-DIV")
+v("div-K", ["C18"], "lark_interface.py", "            if K == 0:\n                continue\n", "", "GUARD-DIV")
+v("div-benign-neq", ["C20"], "cfglm.py", "        if Z[r.head] == 0:\n            continue\n        new.add(r.w * Z.product(r.body) / Z[r.head], r.head, *r.body)",
+  "        if Z[r.head] != 0:\n            new.add(r.w * Z.product(r.body) / Z[r.head], r.head, *r.body)", None)
+
+# ------------------------------------------------------------------ factors / names / singletons
+v("push-swapped", ["C13"], "wfsa/base.py", "new.add_arc(i, a, j, V[i] ** (-1) * w * V[j])", "new.add_arc(i, a, j, V[j] ** (-1) * w * V[i])", "FACTOR-PUSH")
+v("push-benign-order", ["C13"], "wfsa/base.py", "new.add_arc(i, a, j, V[i] ** (-1) * w * V[j])", "new.add_arc(i, a, j, w * V[j] * V[i] ** (-1))", None)
+v("epsremove-both-sides", ["C11"], "wfsa/base.py", "                new.add_arc(i, a, k, w_ij * S[j, k])", "                new.add_arc(i, a, k, S[i, i] * w_ij * S[j, k])", "FACTOR-EPSREMOVE")
+v("epsremove-benign-commute", ["C11"], "wfsa/base.py", "                new.add_I(k, w_i * S[i, k])", "                new.add_I(k, S[i, k] * w_i)", None)
+v("link-w1-only", ["C12"], "wfsa/base.py", "                C.add_arc(i1, EPSILON, i2, w1 * w2)", "                C.add_arc(i1, EPSILON, i2, w1)", "FACTOR-LINK")
+v("link-skip-selfloop", ["C12"], "wfsa/base.py", "            for j, w2 in self.I:\n                m.add_arc(i, EPSILON, j, w1 * w2)", "            for j, w2 in self.I:\n                if i == j:\n                    continue\n                m.add_arc(i, EPSILON, j, w1 * w2)", "FACTOR-LINK")
+v("reverse-fields", ["C12"], "wfsa/base.py", "        for i, w in self.F:\n            R.add_I(i, w)\n        for i, w in self.I:\n            R.add_F(i, w)\n        return R",
+  "        R.start = self.stop.trim()\n        R.stop = self.start.trim()\n        return R", "FIELD-API")
+v("fromstring-or", ["C12"], "wfsa/base.py", "m.add_F(xs, (R.one if w is None else w))", "m.add_F(xs, w or R.one)", "GEN-TRUTH")
+v("renameapart-dropped", ["C12"], "wfsa/base.py", "        self, other = self.rename_apart(other)\n        U = self.spawn(keep_init=True, keep_arcs=True, keep_stop=True)", "        U = self.spawn(keep_init=True, keep_arcs=True, keep_stop=True)", "PIPE-RENAMEAPART")
+v("renameapart-same-tag", ["C12"], "wfsa/base.py", "other.rename(lambda i: f((1, i)))", "other.rename(lambda i: f((0, i)))", "PIPE-RENAMEAPART")
+v("det-no-epsremove", ["C13"], "wfsa/base.py", "        self = self.epsremove.push\n", "        self = self.push\n", "PIPE-DET")
+v("mindet-one-reverse", ["C13"], "wfsa/base.py", "return self.reverse.determinize.trim.reverse.determinize.trim", "return self.reverse.determinize.trim.determinize.trim", "PIPE-DET")
+v("det-residual", ["C13"], "wfsa/base.py", "yield a, frozendict({p: W ** (-1) * R[p] for p in R}), W", "yield a, frozendict({p: R[p] for p in R}), W", "FACTOR-DET")
+v("det-key-support", ["C13"], "wfsa/base.py", "                if Q not in visited:\n                    stack.append(Q)\n                    visited.add(Q)\n                D.add_arc(P, a, Q, w)",
+  "                if frozenset(Q) not in visited:\n                    stack.append(Q)\n                    visited.add(frozenset(Q))\n                D.add_arc(P, a, Q, w)", "DET-KEY")
+v("trim-keep-init", ["C13"], "wfsa/base.py", "    def _trim(self, active):\n        new = self.spawn()", "    def _trim(self, active):\n        new = self.spawn(keep_init=True, keep_stop=True)", "FACTOR-TRIM")
+v("zview-back", ["C13"], "wfsa/base.py", "        stack = [q for q, _ in self.I]\n", "        stack = list(self.start)\n", "ZVIEW")
+v("accumgraph-G", ["C11", "C13"], "wfsa/base.py", "        for i, _, j, w in self.arcs():\n            G[i, j] += w", "        for i, _, j, w in self.arcs():\n            G[i, j] = w", "ACCUM-GRAPH")
+v("solve-left-order", ["C15", "C11"], "linear.py", "enter[j] += sol[i] * self.E[i, j]", "enter[j] += self.E[i, j] * sol[i]", "FACTOR-SOLVE")
+v("solve-right-transposed", ["C15"], "linear.py", "            for i, j in B:\n                sol[i] += B[i, j] * enter[j]", "            for j, k in B:\n                sol[k] += B[j, k] * enter[j]", "FACTOR-SOLVE")
+v("closure-hoist", ["C15"], "linear.py", "                for k in N:\n                    new[i, k] = old[i, k] + old[i, j] * sjj * old[j, k]",
+  "                oij = sjj * old[i, j]\n                for k in N:\n                    new[i, k] = old[i, k] + oij * old[j, k]", "FACTOR-SOLVE")
+v("closure-benign-hoist", ["C15"], "linear.py", "                for k in N:\n                    new[i, k] = old[i, k] + old[i, j] * sjj * old[j, k]",
+  "                oij = old[i, j] * sjj\n                for k in N:\n                    new[i, k] = old[i, k] + oij * old[j, k]", None)
+v("tarjan-lowlink", ["C15"], "linear.py", "            elif w in trail:\n                # Collapsing cycles.", "            elif w in trail or True:\n                # Collapsing cycles.", "TARJAN")
+v("solve-right-unreversed", ["C15", "C08"], "linear.py", "for block, B in reversed(self.Blocks):", "for block, B in self.Blocks:", "DEP-ORDER")
+v("agenda-upwards", ["C08"], "cfg.py", "        b = len(blocks)\n        iteration = 0\n        while b >= 0:", "        b = 0\n        iteration = 0\n        while b <= len(blocks):", "ANALYSIS-ERROR")
+v("bytes-weight-everywhere", ["C17"], "wfsa/base.py", "                    byte_wfsa.add_arc(i, bs[0], curr, self.R.one)", "                    byte_wfsa.add_arc(i, bs[0], curr, w)", "FACTOR-BYTES")
+v("bytes-local-counter", ["C17", "C19"], "wfsa/base.py", "        def get_new_state():\n            # globally fresh: several converted machines may be merged by name\n            return _gen_nt(\"_bytes\")",
+  "        counter = 0\n\n        def get_new_state():\n            nonlocal counter\n            counter += 1\n            return f\"_bytes{counter}\"", "NS-BYTES")
+v("tocfg-no-rename", ["C17"], "wfsa/base.py", "        if not self.states.isdisjoint(V):\n            # states double as nonterminals: keep them apart from the terminals\n            self = self.rename(lambda q: (\"state\", q))\n", "", "NS-TOCFG")
+v("tocfg-left-not-mirrored", ["C17"], "wfsa/base.py", "                    cfg.add(w, j, i, a)", "                    cfg.add(w, j, a, i)", "NS-TOCFG")
+v("looppair-back", ["C18", "C19"], "lark_interface.py", "                    if len(A) != 1:\n                        continue  # excluded from the fan-out above (with a warning)\n", "", "LOOPPAIR")
+v("looppair-weight", ["C18", "C19"], "lark_interface.py", "                    m.add_arc(name(i), A, name(j), 1 / K)", "                    m.add_arc(name(i), A, name(j), 1 / (K + 1))", "LOOPPAIR")
+v("charcfg-unwrapped", ["C19"], "lark_interface.py", "                foo.add(decay, ignore, f(token_class.name))", "                foo.add(decay, ignore, token_class.name)", "NS-CHARCFG")
+v("charcfg-name-identity", ["C19"], "lark_interface.py", "                name=lambda x, t=token_class.name: f((t, x)),", "                name=lambda x, t=token_class.name: (t, x),", "NS-CHARCFG")
+v("renumber-no-offset", ["C06"], "cfg.py", "return self.rename(lambda x: i(x) + max_v + 1)", "return self.rename(lambda x: i(x))", "NS-RENUMBER")
+v("locnorm-no-division", ["C20"], "cfglm.py", "new.add(r.w * Z.product(r.body) / Z[r.head], r.head, *r.body)", "new.add(r.w * Z.product(r.body), r.head, *r.body)", "FACTOR-LOCNORM")
+v("product-get-one", ["C20"], "chart.py", "        for k in ks:\n            v *= self[k]", "        for k in ks:\n            v *= self.get(k, self.semiring.one)", "FACTOR-LOCNORM")
+v("addeos-weight", ["C20"], "cfglm.py", "    new.add(cfg.R.one, S, cfg.S, eos)", "    new.add(cfg.R.one + cfg.R.one, S, cfg.S, eos)", "WAUX")
+v("addeos-fixed-start", ["C20"], "cfglm.py", "    S = _gen_nt(\"<START>\")", "    S = \"<START>\"", "WAUX")
+v("addeos-or-default", ["C20"], "cfglm.py", "    eos = EOS if eos is None else eos", "    eos = eos or EOS", "DEFAULT-NONE")
+v("addeos-trimmed-copy", ["C20"], "cfglm.py", "    for r in cfg:\n        new.add(r.w, r.head, *r.body)\n    return new", "    for r in cfg.trim():\n        new.add(r.w, r.head, *r.body)\n    return new", "COPY")
+v("fold-aux-weight", ["C06", "C02"], "cfg.py", "            P.append(Rule(self.R.one, head, body))", "            P.append(Rule(p.w, head, body))", "WAUX")
+v("preterminal-reuse", ["C06", "C02"], "cfg.py", "            if len(r.body) == 1 and self.is_terminal(r.body[0]):\n                new.add(r.w, r.head, *r.body)",
+  "            if len(r.body) == 1 and self.is_terminal(r.body[0]):\n                _preterminal.setdefault(r.body[0], new.add(r.w, r.head, *r.body))", "WAUX")
+v("unaryremove-nullary-verbatim", ["C06"], "cfg.py", "            for Y in self.N:\n                new.add(W[Y, r.head] * r.w, Y, *r.body)",
+  "            if len(r.body) == 0:\n                new.add(r.w, r.head)\n                continue\n            for Y in self.N:\n                new.add(W[Y, r.head] * r.w, Y, *r.body)", "FACTOR-UNARYREMOVE")
+v("nullpush-per-symbol", ["C06", "C01", "C02"], "cfg.py", "            for B in product([0, 1], repeat=len(r.body)):", "            for B in product([0, 1], repeat=len(set(r.body))):", "FACTOR-NULLPUSH")
+v("nullstart-skipped", ["C06"], "cfg.py", "        self = self.separate_start()\n        tmp = self._push_null_weights(self.null_weight(), **kwargs)", "        tmp = self._push_null_weights(self.null_weight(), **kwargs)", "PIPE-NULLSTART")
+v("delta-assign", ["C03"], "cfg.py", "                delta *= U[y]", "                delta = U[y]", "ACCUM-DELTA")
+v("prefix-final-0", ["C03"], "cfg.py", "    P.add_F(1, R.one)\n    return P", "    P.add_F(1, R.one)\n    P.add_F(0, R.one)\n    return P", "TAB-PREFIX")
+v("prefix-no-initial-1", ["C03"], "cfg.py", "    P.add_I(0, R.one)\n    P.add_I(1, R.one)", "    P.add_I(0, R.one)", "TAB-PREFIX")
+v("prefix-copy-on-1", ["C03"], "cfg.py", "        P.add_arc(1, (x, EPSILON), 1, R.one)", "        P.add_arc(1, (x, EPSILON), 1, R.one)\n        P.add_arc(1, (x, x), 1, R.one)", "TAB-PREFIX")
+v("prefix-benign-reorder", ["C03"], "cfg.py", "    P.add_I(0, R.one)\n    P.add_I(1, R.one)", "    P.add_I(1, R.one)\n    P.add_I(0, R.one)", None)
+v("prefix-shortcut", ["C03"], "cfg.py", "        return self.prefix_grammar(xs)", "        if len(xs) == 0:\n            return self.R.one\n        return self.prefix_grammar(xs)", "TAB-PREFIX")
+v("filter-extra-both", ["C10"], "fst.py", "    F.add_arc(1, (ε_1, ε_1), 1, R.one)", "    F.add_arc(1, (ε_1, ε_1), 1, R.one)\n    F.add_arc(1, (ε_2, ε_1), 0, R.one)", "TAB-EPSFILTER")
+v("filter-missing-both", ["C10"], "fst.py", "    F.add_arc(0, (ε_2, ε_1), 0, R.one)\n", "", "TAB-EPSFILTER")
+v("filter-nonfinal", ["C10"], "fst.py", "    F.add_F(2, R.one)\n", "", "TAB-EPSFILTER")
+v("filter-staystay", ["C10"], "fst.py", "    F.add_arc(0, (ε_2, ε_1), 0, R.one)\n", "    F.add_arc(0, (ε_2, ε_1), 0, R.one)\n    F.add_arc(0, (ε_1, ε_2), 0, R.one)\n", "TAB-EPSFILTER")
+v("filter-benign-reorder", ["C10"], "fst.py", "    F.add_arc(1, (ε_1, ε_1), 1, R.one)\n    F.add_arc(2, (ε_2, ε_2), 2, R.one)", "    F.add_arc(2, (ε_2, ε_2), 2, R.one)\n    F.add_arc(1, (ε_1, ε_1), 1, R.one)", None)
+v("augment-swapped", ["C10"], "fst.py", "                T.add_arc(i, (ε, ε_1), i, self.R.one)", "                T.add_arc(i, (ε, ε_2), i, self.R.one)", "TAB-EPSFILTER")
+v("assoc-wrong-idx", ["C10"], "fst.py", "                    other._augment_epsilon_transitions(1), coarsen=False", "                    other._augment_epsilon_transitions(0), coarsen=False", "TAB-ASSOC")
+v("assoc-filter-alphabet", ["C10"], "fst.py", "                    epsilon_filter_fst(self.R, self.B), coarsen=False", "                    epsilon_filter_fst(self.R, other.B), coarsen=False", "TAB-ASSOC")
+v("special-dropped", ["C09", "C03"], "cfg.py", "            Rule(self.R.one, Other(self.S), (Other(self.S), EPSILON)),\n        ]\n\n        def join(start, Ys):", "        ]\n\n        def join(start, Ys):", "TAB-SPECIAL")
+v("special-newV", ["C09", "C03"], "cfg.py", "        special_rules = [Rule(self.R.one, a, (EPSILON, a)) for a in self.V] + [\n            Rule(self.R.one, Other(self.S), (self.S,)),\n            Rule(self.R.one, Other(self.S), (Other(self.S), EPSILON)),\n        ]\n\n        def join",
+  "        special_rules = [Rule(self.R.one, a, (EPSILON, a)) for a in new.V] + [\n            Rule(self.R.one, Other(self.S), (self.S,)),\n            Rule(self.R.one, Other(self.S), (Other(self.S), EPSILON)),\n        ]\n\n        def join", "TAB-SPECIAL")
+v("labelpair-bare", ["C10", "C09"], "fst.py", "            p.add_arc(0, (EPSILON, EPSILON), (i, 0), R.one)", "            p.add_arc(0, EPSILON, (i, 0), R.one)", "LABEL-PAIR")
+v("compose-prune", ["C09"], "fst.py", "                return other @ self.T", "                return other @ self.T.prune_to_alphabet(other.V, None)", "PIPE-COMPOSE")
+v("wfsacall-no-epsremove", ["C11"], "wfsa/base.py", "    def __call__(self, xs):\n        self = self.epsremove\n", "    def __call__(self, xs):\n", "PIPE-WFSACALL")
+v("dtype-back", ["C14"], "wfsa/field_wfsa.py", "start = np.full(S, self.R.zero, dtype=float)", "start = np.full(S, self.R.zero)", "GEN-DTYPE")
+v("hash-dim", ["C14"], "wfsa/field_wfsa.py", "    def __hash__(self):\n        return 0", "    def __hash__(self):\n        return hash(self.dim)", "HASH-CONST")
+v("symunion-self-only", ["C14"], "wfsa/field_wfsa.py", "        alphabet = set(self.arcs) | set(B.arcs)", "        alphabet = set(self.arcs)", "SYM-UNION")
+v("shadow-back", ["C12"], "wfsa/field_wfsa.py", "WFSA.one = _ClassConstant(WFSA.lift(EPSILON, w=Float.one, R=Float), base.WFSA.one)", "WFSA.one = WFSA.lift(EPSILON, w=Float.one, R=Float)", "GEN-SHADOW")
+# semirings
+v("sr-maxplus-zero", ["C16"], "semiring.py", "MaxPlus.zero = MaxPlus(-np.inf)", "MaxPlus.zero = MaxPlus(0.0)", "SR-TABLE")
+v("sr-entropy-shortcut", ["C16"], "semiring.py", "        if other is self.zero:\n            return self\n        if self is self.zero:\n            return other\n        return Entropy(self.score[0] + other.score[0]",
+  "        if other is self.zero:\n            return other\n        if self is self.zero:\n            return other\n        return Entropy(self.score[0] + other.score[0]", "SR-TABLE")
+v("sr-maxtimes-mul", ["C16"], "semiring.py", "        return MaxTimes(self.score * other.score)", "        return MaxTimes(self.score + other.score)", "SR-TABLE")
+v("sr-log-star", ["C16"], "semiring.py", "        return Log(-np.log1p(-np.exp(self.score)))", "        return Log.one", "SR-TABLE")
+v("sr-log-metric", ["C16", "C08"], "semiring.py", "class Log(Semiring):\n    def metric(self, other):\n        return abs(self.score - other.score)",
+  "class Log(Semiring):\n    def metric(self, other):\n        return abs(np.exp(self.score) - np.exp(other.score))", "SR-TABLE")
+v("sr-expectation-cross", ["C16"], "semiring.py", "            self.score[0] * other.score[1] + other.score[0] * self.score[1],", "            self.score[0] * other.score[1] + other.score[1] * self.score[1],", "SR-TABLE")
+v("sr-benign-commute", ["C16"], "semiring.py", "            self.score[0] * other.score[1] + other.score[0] * self.score[1],", "            other.score[0] * self.score[1] + other.score[1] * self.score[0],", None)
+v("sr-benign-real", ["C16"], "semiring.py", "        return Real(self.score * other.score)", "        return Real(other.score * self.score)", None)
